@@ -426,6 +426,16 @@ func Matrix() []*File {
 				{Name: "p_int", Num: 3, Kind: KInt32, Card: OneofMember, Oneof: 0},
 				{Name: "y", Num: 4, Kind: KInt64, Card: Optional}}})
 			files = append(files, rq)
+			// two nested definitions with the same short name, only the second with a required field
+			sn := &File{Base: "p2samename", Proto2: true}
+			sn.Messages = append(sn.Messages,
+				&Message{Name: "Request", Fields: []Field{{Name: "o", Num: 1, Kind: KMessage, Card: Optional, Msg: "Request.Options"}},
+					Nested: []*Message{{Name: "Options", Fields: []Field{{Name: "a", Num: 1, Kind: KInt32, Card: Optional}}}}},
+				&Message{Name: "Response", Fields: []Field{{Name: "o", Num: 1, Kind: KMessage, Card: Optional, Msg: "Response.Options"},
+					{Name: "os", Num: 2, Kind: KMessage, Card: RepUnpacked, Msg: "Response.Options"}},
+					Nested: []*Message{{Name: "Options", Fields: []Field{{Name: "token", Num: 1, Kind: KString, Card: Required}, {Name: "n", Num: 2, Kind: KInt32, Card: Optional}}}}})
+			files = append(files, sn)
+
 		}
 		if p2 {
 			// proto2 extensions declared inside a top-level message (what the plug-in supports), message-typed
